@@ -44,8 +44,11 @@ KNOWN_PIDS = set(P.values()) | {0, 1, 768}
 # ------------------------------------------------------------------ python mirror of the encoder
 
 
+ENDIAN = ["little"]   # switched to "big" while a big-endian list is produced (see encode_be)
+
+
 def le(n, v):
-    return list((v % (1 << (8 * n))).to_bytes(n, "little"))
+    return list((v % (1 << (8 * n))).to_bytes(n, ENDIAN[0]))
 
 
 class W:
@@ -274,6 +277,15 @@ def encode(kind, v):
     return assemble(params_of(kind, v))
 
 
+def encode_be(kind, v):
+    """the same parameter list as another vendor would send it in PL_CDR_BE"""
+    ENDIAN[0] = "big"
+    try:
+        return assemble(params_of(kind, v), header=[0, 2, 0, 0], sentinel=False) + [0, 1, 0, 0]
+    finally:
+        ENDIAN[0] = "little"
+
+
 # ------------------------------------------------------------------ value generators
 ASCII = [ord(c) for c in "abcdefghijklmnopqrstuvwxyzABCXYZ0123456789_/*?[]-. "]
 MULTI = ["é", "ß", "€", "日本", "😀", " ", "ࠀ", "퟿", "", "\U00010000", "\U0010ffff"]
@@ -442,6 +454,19 @@ def mutate(r, kind, v):
     """returns (tag, bytes)"""
     ps = params_of(kind, v)
     k = r.random()
+    if k < 0.05:
+        return "be", encode_be(kind, v)
+    if k < 0.09 and ps:
+        # a parameter is missing (defaults / PidNotFound)
+        del ps[r.randrange(len(ps))]
+        return "drop", assemble(ps)
+    if k < 0.12:
+        # no sentinel: the last parameter ends exactly at the end of the data
+        return "nosentinel", assemble(ps, sentinel=False)
+    if k < 0.16:
+        # parameters after the sentinel must not be seen
+        other = params_of(kind, gen_value(r, kind))
+        return "aftersentinel", assemble(ps) + [b for q in other for b in param(*q)] + (SENTINEL if r.random() < 0.5 else [])
     if k < 0.30:
         # unknown / vendor-specific parameters anywhere before the sentinel
         n = r.randint(1, 4)
@@ -1075,7 +1100,7 @@ def big_cases(r, tier):
 
 
 def gen(r, tier):
-    n = {"quick": 1500, "search": 5000, "thorough": 30000}[tier]
+    n = {"quick": 1100, "search": 4000, "thorough": 24000}[tier]
     cases = []
     cases += big_cases(r, tier)
     cases += enc_cases(r, n // 10)
